@@ -120,7 +120,8 @@ def rule_bijection(ctx):
         ok = tables.oracle_field(kind, col) in pos and pos <= want
         ctx.check(ok, "get_piece_kind:%s-%s" % (col, kind), "get_piece_kind returns %s(%s) when its mask hits %s" % (kind, col, sorted(pos)), gk.where(0),
                   bad_what="get_piece_kind returns %s(%s) on a hit in %s (expected %s)" % (kind, col, sorted(pos), sorted(want)))
-    ctx.check(not run.overflow, "get_piece_kind:paths-enumerated", "%d path(s) of get_piece_kind enumerated" % len(run.paths), gk.where(0), bad_what="too many paths in get_piece_kind (cannot decide)")
+    ctx.check(not run.overflow and not any(p.end == "cut" for p in run.paths), "get_piece_kind:paths-enumerated", "%d path(s) of get_piece_kind enumerated" % len(run.paths), gk.where(0),
+              bad_what="get_piece_kind has a loop or too many paths: its table cannot be read off (cannot decide)")
     ctx.check(rows == 12, "get_piece_kind:twelve-rows", "get_piece_kind distinguishes 12 pieces", gk.where(0), bad_what="get_piece_kind has %d Some(..) returns" % rows)
     # Builder::build copies each field to the like-named bitboard; unions are complete
     bd = ctx.body(PBB + "build")
